@@ -284,6 +284,14 @@ func runC10(c *Ctx, pr *PropertyRun) {
 	c10Multiget(c, pr)
 	c10ErrorResponse(c, pr)
 	decodePropTable(c, pr, "C10")
+	// what the client makes of per-resource statuses (deleted members of a
+	// sync-collection, failing multiget entries): the tables of C14
+	c14TablesFor(c, pr, "C10")
+	// tags, dates and hrefs are written and read by inverse pairs, in the
+	// multistatus and in the headers (shared with C16.pairs)
+	c16Pairs(c, pr, "C10", func(what string) bool {
+		return strings.HasPrefix(what, "entity tag") || what == "HTTP date" || what == "href"
+	})
 	utcRule(c, pr, "C10")
 
 	sch := NewRule("C10", "C10.schema", "every wire struct of internal, webdav, caldav and carddav agrees with the RFC element tables (names, namespaces, attributes, required children; child order only noted: the RFCs declare it irrelevant) (E6)")
